@@ -124,9 +124,12 @@ def _through_from_string(ctx, name, bench, cons, objs, expected, line, m):
         return
     try:
         text = "vers:%s/%s" % (S.rclass(name).scheme, "|".join(str(o) for o in objs))
-        plain = VersionRange.from_string(text)
-        if list(plain.constraints) != sorted(objs):
-            raise ValueError("the text does not say the same constraints")
+        # every constraint's own text says that constraint (judged one by one: what the parser does with the LIST is
+        # what is being tested)
+        for o in objs:
+            t1 = str(o)
+            if "|" in t1 or VersionConstraint.from_string(t1, S.vclass(name)) != o:
+                raise ValueError("the text does not say the same constraint")
     except Exception:  # noqa: BLE001
         ctx.count(stream, key=line, nontrivial=False, branch="text not usable")
         return
